@@ -328,6 +328,25 @@ func (prop) Gen(r *rand.Rand, tier string) []core.Case {
 			inputs = append(inputs, input{"big", []string{"recipe", fmt.Sprintf("%s:%d:%d", k, r.Int63n(1<<40), n)}})
 		}
 	}
+	// short inputs holding exactly one convertible branch instruction (opcode E8/E9 whose operand's
+	// top byte is 00/FF) at the start or right at the end of the buffer, lengths 5..12: the codec
+	// level must filter them the same way on both sides (seeded defect c08-2: Encode skipped the
+	// filter for len <= 5 while Decode still applied it)
+	mid := []byte{0x10, 0x20, 0x7F, 0x80, 0xFE, 0x01, 0x30}
+	for n := 5; n <= 12; n++ {
+		for _, pos := range []int{0, n - 5} {
+			for _, op := range []byte{0xE8, 0xE9} {
+				for _, top := range []byte{0x00, 0xFF} {
+					d := make([]byte, n)
+					for i := range d {
+						d[i] = mid[r.Intn(len(mid))]
+					}
+					d[pos], d[pos+4] = op, top
+					inputs = append(inputs, input{"branch" + strconv.Itoa(n), []string{"data", core.Hex(d)}})
+				}
+			}
+		}
+	}
 	for _, in := range inputs {
 		for _, codec := range []string{"LZMA", "LZMAX86"} {
 			for _, xz := range []string{"real", "none"} {
